@@ -44,8 +44,9 @@ META = {
         "(note_explicit_target attaches docutils' duplicate-name system message, the body its paragraphs), because the "
         "collector and docutils read children[0] as the label; helpers that receive the node are followed. "
         "(R3) The duplicate-definition path issues exactly one [ref.footnote] warning and returns before any construction, "
-        "registration or rendering of the duplicate itself, but still walks the token's children and dispatches definitions "
-        "of other labels nested in its body. "
+        "registration or rendering of the duplicate itself, but still searches the token's children for definitions of other "
+        "labels: each nested definition is dispatched exactly once and not searched further (its own rendering handles what is "
+        "inside it - so no flat walk()/findall over all descendants), every other token is searched further. "
         "(R4) The collector's move loop (in apply or one helper) is guarded by myst_footnote_sort only, gathers every entry "
         "of document.footnotes and autofootnotes exactly once, detaches then attaches each footnote once per iteration, in "
         "ascending sorted(key=) order; at most one transition is built, under both settings, appended to the document before "
@@ -91,8 +92,7 @@ META = {
         "types the final-transition look-out descends into (only that it descends); a manual/auto classification moved "
         "wholesale into a helper is ANALYSIS-ERROR (path counts would span two CFGs); rST footnotes created inside eval-rst "
         "(parsed into a separate document); inline rules of third-party markdown-it plugins other than footnote/attrs; "
-        "string transformations in the duplicate test other than the tabled folding methods/functions are ANALYSIS-ERROR; "
-        "how deep the walk over a dropped duplicate's children goes (only that it loops/recurses)"
+        "string transformations in the duplicate test other than the tabled folding methods/functions are ANALYSIS-ERROR"
     ),
     "trusted_base": [
         "CPython ast",
@@ -1283,35 +1283,61 @@ def r3_duplicate_path(corpus: Corpus, rep: Report, tier: str):
                 rep.violation("C11.R3", key, fi.module.site(w), f"the duplicate-definition warning is typed {got[0]}.{got[1]} (or non-literal), required ref.footnote like the unreferenced-footnote warnings")
         else:
             rep.violation("C11.R3", key, fi.module.site(w), "the duplicate-definition warning bypasses create_warning: no [ref.footnote] tag, not suppressible")
-    # the duplicate's own content is dropped, but definitions of OTHER labels nested in its body are not lost
+    # the duplicate's own content is dropped, but definitions of OTHER labels nested in its body are not lost -
+    # and each of them is dispatched exactly once (its own rendering handles what is nested inside it)
     me = fi.name
-    nested = []
-    for n in fi.local_nodes():
-        if isinstance(n, ast.Call) and isinstance(n.func, ast.Attribute) and _is_name(n.func.value, "self") and n.func.attr in (me, "_render_tokens", "render_children") and ev.cfg.stmt_of(n) in reach:
-            loop = next((a for a in ancestors(n) if isinstance(a, (ast.While, ast.For))), None)
-            if n.func.attr == me and loop is None:
-                continue
-            nested.append(n)
     key = f"{fi.fq}|duplicate path|definitions nested in the duplicate's body are still rendered"
-    via_helper = None
-    for call_, h_ in _helper_calls(fi):
-        if ev.cfg.stmt_of(call_) in reach and h_.fq != fi.fq:
-            inner = [c for c in h_.local_nodes() if isinstance(c, ast.Call) and isinstance(c.func, ast.Attribute) and _is_name(c.func.value, "self") and c.func.attr == me]
-            if inner and any(isinstance(x, ast.Attribute) and x.attr == "children" for x in h_.local_nodes()) and (any(isinstance(a, (ast.While, ast.For)) for c in inner for a in ancestors(c)) or _descends(h_)):
-                via_helper = (call_, h_)
-    if via_helper is not None:
-        rep.ok("C11.R3", key, fi.module.site(via_helper[0]), f"{via_helper[1].qualname} walks the children and dispatches nested {me} tokens")
-    elif any(n.func.attr == "render_children" for n in nested):
-        pass  # judged above: rendering the whole body is an effect of the duplicate itself
-    elif any(n.func.attr == me for n in nested) and any(isinstance(x, ast.Attribute) and x.attr == "children" for x in ast.walk(n_if)):
-        rep.ok("C11.R3", key, fi.module.site(nested[0]), f"walks token.children and dispatches nested {me} tokens")
-    else:
+    holders: list[tuple[FunctionInfo, ast.AST]] = []  # (function, dispatch call) with the call inside a loop
+    for g in [fi] + [h_ for call_, h_ in _helper_calls(fi) if ev.cfg.stmt_of(call_) in reach and h_.fq != fi.fq]:
+        gcfg = get_cfg(g)
+        for n in g.local_nodes():
+            if isinstance(n, ast.Call) and isinstance(n.func, ast.Attribute) and _is_name(n.func.value, "self") and n.func.attr == me and n.args:
+                if g is fi and ev.cfg.stmt_of(n) not in reach:
+                    continue
+                if any(isinstance(a_, (ast.While, ast.For)) for a_ in ancestors(n)):
+                    holders.append((g, n))
+    if not holders:
         rep.violation(
             "C11.R3",
             key,
             site,
             "the duplicate branch returns without looking at the token's children: a definition of ANOTHER label written in the indented body of the duplicate (`[^a]: duplicate` + indented `[^b]: only definition of b`) is dropped with it - its text is lost and `[^b]` becomes 'Unknown target name'",
         )
+    for g, call in holders:
+        gcfg = get_cfg(g)
+        loop = next(a_ for a_ in ancestors(call) if isinstance(a_, (ast.While, ast.For)))
+        lsite = g.module.site(loop)
+        elem = call.args[0]
+        if not isinstance(elem, ast.Name):
+            raise Unsupported(f"{g.module.site(call)}: nested definition dispatched with `{short(elem, 30)}`")
+        # a flat traversal visits every descendant, also those below a nested definition
+        flat = isinstance(loop, ast.For) and any(isinstance(x, ast.Call) and isinstance(x.func, ast.Attribute) and x.func.attr in ("walk", "findall", "traverse") for x in ast.walk(loop.iter))
+        if flat:
+            rep.violation(
+                "C11.R3",
+                key,
+                lsite,
+                f"`{short(loop.iter, 50)}` visits every descendant of the duplicate, including definitions nested inside a nested definition - which that definition's own rendering already handles: they are rendered a second time and reported as duplicates of themselves (a bogus 'Duplicate footnote definition' warning each)",
+            )
+            continue
+        gev = Events(g)
+        gev.add("dispatch", call)
+        for st in ast.walk(loop):
+            if isinstance(st, ast.stmt) and st is not loop and not isinstance(st, (ast.If, ast.While, ast.For, ast.With, ast.Try)):
+                desc_ = any(isinstance(x, ast.Attribute) and x.attr == "children" and _is_name(x.value, elem.id) for x in ast.walk(st)) or any(
+                    isinstance(x, ast.Call) and isinstance(x.func, ast.Attribute) and _is_name(x.func.value, "self") and x.func.attr == g.name and x is not call and any(_is_name(a_, elem.id) for a_ in x.args) for x in ast.walk(st)
+                )
+                if desc_:
+                    gev.add("descend", st)
+        dstmt = gcfg.stmt_of(call)
+        with_d = gev.paths("descend", ("T", loop), loop, must=[dstmt])
+        without_d = gev.paths("descend", ("T", loop), loop, avoid=[dstmt])
+        if with_d - {0}:
+            rep.violation("C11.R3", key, lsite, "a nested definition is dispatched AND its children are searched again: definitions nested inside it are rendered twice (once by its own rendering) and reported as duplicates of themselves")
+        elif not without_d or 0 in without_d:
+            rep.violation("C11.R3", key, lsite, "the search does not go below tokens that are not definitions themselves: a definition inside a block quote or list in the duplicate's body (`[^a]: duplicate` + indented `> [^b]: text`) is lost with the duplicate")
+        else:
+            rep.ok("C11.R3", key, lsite, f"{g.qualname}: each nested {me} token dispatched once, other tokens searched further")
     rep.expect_min("C11.R3", 3, "warning count, no-effect, warning type")
 
 
@@ -3299,6 +3325,18 @@ def mutants(corpus: Corpus):
     dupif2 = find_node(dfn, lambda n: isinstance(n, ast.If) and any(isinstance(x, ast.Return) for x in n.body) and any(isinstance(x, ast.Expr) and "create_warning" in unparse(x) for x in n.body))
     wl = next((x for x in dupif2.body if isinstance(x, (ast.While, ast.For))), None) if dupif2 is not None else None
     add("c11-revert-f7f28d7-nested-definitions-dropped-with-duplicate", "C11.R3", base, wl, "pass", "nested in the duplicate", True)
+    if wl is not None:
+        wi_ = " " * wl.col_offset
+        disp = next((x for x in ast.walk(wl) if isinstance(x, ast.Expr) and isinstance(x.value, ast.Call) and isinstance(x.value.func, ast.Attribute) and x.value.func.attr == dfn.name), None)
+        tchk = next((x for x in ast.walk(wl) if isinstance(x, ast.If) and disp is not None and disp in x.body), None)
+        if disp is not None and tchk is not None and tchk.orelse:
+            ev_ = unparse(disp.value.args[0])
+            # flat traversal of all descendants (class of seed7 out-c11/2)
+            add("c11-nested-definitions-found-by-flat-walk", "C11.R3", base, wl, f"for {ev_} in token.walk(include_self=False):\n{wi_}    if {_seg(base, tchk.test)}:\n{wi_}        {_seg(base, disp)}", "nested in the duplicate")
+            # dispatched and searched again
+            add("c11-nested-definitions-dispatched-and-searched", "C11.R3", base, tchk, f"if {_seg(base, tchk.test)}:\n{' ' * disp.col_offset}{_seg(base, disp)}\n{' ' * tchk.col_offset}{_seg(base, tchk.orelse[0])}", "nested in the duplicate")
+            # containers are not searched
+            add("c11-nested-definitions-direct-children-only", "C11.R3", base, tchk.orelse[0], "pass", "nested in the duplicate")
     # ---- R7: the stored option is not exactly the configuration value (class of recorded seed C11-b1)
     fin0 = base.functions.get("DocutilsRenderer._render_finalise")
     st0 = find_stmt(fin0, lambda n: isinstance(n, ast.Assign) and isinstance(n.targets[0], ast.Attribute) and n.targets[0].attr == "myst_footnote_sort") if fin0 is not None else None
